@@ -49,8 +49,14 @@ import (
 )
 
 type c17MqIn struct {
-	Cap int       `json:"cap"`
-	Ops [][]int64 `json:"ops"`
+	Cap int `json:"cap"`
+	// MQTT pipeline rules of the broker spec (the Connect rule, which parks connections, is always there):
+	// Pub : Publish rule (the WILL of a client that ends abnormally goes through it):
+	//       0 none | 1 resolvable, passes | 2 verdict Drop | 3 verdict Disconnect | 4 pipeline the MuxMapper cannot resolve
+	// Disc: Disconnect rule (run inside Client.close()): 0 resolvable (parking double of DelRe) | 1 none | 2 unresolvable
+	Pub  int       `json:"pub"`
+	Disc int       `json:"disc"`
+	Ops  [][]int64 `json:"ops"` // Start: [0, cid] or [0, cid, 1] = CONNECT carrying a will
 }
 
 type c17MqStep struct {
@@ -72,6 +78,7 @@ type c17MqPark struct {
 }
 
 type c17MqHandler struct {
+	pub     int   // verdict on Publish packets (see c17MqIn.Pub)
 	park    int32 // 1: park Connect packets until released
 	entered chan c17MqPark
 	last    atomic.Value // *Client of the latest Connect packet seen
@@ -96,6 +103,15 @@ func (h *c17MqHandler) Handle(ctx *context.Context) string {
 		p := c17MqPark{cl: cl, rel: make(chan struct{})}
 		h.entered <- p
 		<-p.rel
+	case mqttprot.PublishType:
+		if resp, ok := ctx.GetResponse(context.DefaultNamespace).(*mqttprot.Response); ok {
+			switch h.pub {
+			case 2:
+				resp.SetDrop()
+			case 3:
+				resp.SetDisconnect()
+			}
+		}
 	case mqttprot.DisconnectType:
 		arm, _ := h.discArm.Load().(string)
 		if cl == nil || arm == "" || cl.info.cid != arm {
@@ -111,12 +127,29 @@ func (h *c17MqHandler) Handle(ctx *context.Context) string {
 
 type c17MqMux struct{ h *c17MqHandler }
 
-func (m *c17MqMux) GetHandler(name string) (context.Handler, bool) { return m.h, true }
+func (m *c17MqMux) GetHandler(name string) (context.Handler, bool) {
+	if name == "c17-missing" {
+		return nil, false // a rule may name a pipeline that does not exist (any more): legal spec
+	}
+	return m.h, true
+}
 
-func c17MqBroker(capN int, h *c17MqHandler) (*Broker, string) {
+func c17MqBroker(capN int, h *c17MqHandler, pub, disc int) (*Broker, string) {
 	spec := &Spec{Name: "c17", EGName: "c17", Port: 0, MaxAllowedConnection: capN,
-		Rules: []*Rule{{When: &When{PacketType: Connect}, Pipeline: "c17-connect"},
-			{When: &When{PacketType: Disconnect}, Pipeline: "c17-disconnect"}}}
+		Rules: []*Rule{{When: &When{PacketType: Connect}, Pipeline: "c17-connect"}}}
+	switch disc {
+	case 0:
+		spec.Rules = append(spec.Rules, &Rule{When: &When{PacketType: Disconnect}, Pipeline: "c17-disconnect"})
+	case 2:
+		spec.Rules = append(spec.Rules, &Rule{When: &When{PacketType: Disconnect}, Pipeline: "c17-missing"})
+	}
+	switch pub {
+	case 1, 2, 3:
+		spec.Rules = append(spec.Rules, &Rule{When: &When{PacketType: Publish}, Pipeline: "c17-publish"})
+	case 4:
+		spec.Rules = append(spec.Rules, &Rule{When: &When{PacketType: Publish}, Pipeline: "c17-missing"})
+	}
+	h.pub = pub
 	b := newBroker(spec, newStorage(nil), &c17MqMux{h}, func(s, ss string) ([]string, error) { return nil, nil })
 	if b == nil {
 		return nil, ""
@@ -140,6 +173,9 @@ type c17MqSlot struct {
 }
 
 const c17MqWait = 20 * time.Second
+
+// c17MqCloseWait: how long a superseded client's asynchronous close is awaited (shortened after the first miss)
+var c17MqCloseWait = int64(20 * time.Second)
 
 func c17MqReader(conn net.Conn, ev chan c17MqEvent) {
 	for {
@@ -209,7 +245,7 @@ func c17MqExec(in c17MqIn) (obs c17MqObs) {
 	obs.Alive = -1
 	h := &c17MqHandler{park: 1, entered: make(chan c17MqPark, 64), discIn: make(chan c17MqPark, 4)}
 	h.discArm.Store("")
-	b, addr := c17MqBroker(in.Cap, h)
+	b, addr := c17MqBroker(in.Cap, h, in.Pub, in.Disc)
 	if b == nil {
 		obs.Desync = true
 		return
@@ -252,7 +288,12 @@ func c17MqExec(in c17MqIn) (obs c17MqObs) {
 			}
 			s.conn = conn
 			go c17MqReader(conn, s.ev)
-			if err := c17MqConnectPacket(fmt.Sprintf("c%d", op[1])).Write(conn); err != nil {
+			cp := c17MqConnectPacket(fmt.Sprintf("c%d", op[1]))
+			if len(op) >= 3 && op[2] == 1 {
+				// a will: published through the Publish pipeline when the client ends without DISCONNECT
+				cp.WillFlag, cp.WillTopic, cp.WillMessage, cp.WillQos = true, "c17/will", []byte("gone"), 0
+			}
+			if err := cp.Write(conn); err != nil {
 				obs.Desync = true
 				break
 			}
@@ -342,10 +383,11 @@ func c17MqExec(in c17MqIn) (obs c17MqObs) {
 						s.state = 2
 						// a takeover closes the superseded client in a goroutine: wait for it
 						if oldClient != nil && oldClient != s.client {
-							dl := time.Now().Add(c17MqWait)
+							dl := time.Now().Add(time.Duration(atomic.LoadInt64(&c17MqCloseWait)))
 							for !oldClient.disconnected() {
 								if time.Now().After(dl) {
 									obs.Desync = true
+									atomic.StoreInt64(&c17MqCloseWait, int64(200*time.Millisecond))
 									break
 								}
 								time.Sleep(100 * time.Microsecond)
@@ -513,7 +555,13 @@ func c17MqExec(in c17MqIn) (obs c17MqObs) {
 }
 
 func c17MqGen(r *vfRand, adv bool) c17MqIn {
-	in := c17MqIn{Cap: r.PickInt(0, 1, 1, 2, 2, 3)}
+	in := c17MqIn{Cap: r.PickInt(0, 1, 1, 2, 2, 3), Pub: r.PickInt(0, 0, 1, 2, 3, 4), Disc: r.PickInt(0, 0, 0, 1, 2)}
+	start := func(cid int) []int64 {
+		if r.Chance(1, 2) {
+			return []int64{0, int64(cid), 1} // with a will
+		}
+		return []int64{0, int64(cid)}
+	}
 	k := r.Range(4, 16)
 	if adv {
 		k = r.Range(12, 40)
@@ -534,7 +582,7 @@ func c17MqGen(r *vfRand, adv bool) c17MqIn {
 		x := r.Intn(20)
 		switch {
 		case x < 8 || (len(parked) == 0 && len(connected) == 0):
-			in.Ops = append(in.Ops, []int64{0, int64(r.Intn(ncid))})
+			in.Ops = append(in.Ops, start(r.Intn(ncid)))
 			parked = append(parked, nslot) // possibly refused early; a later Commit is then ignored
 			nslot++
 			if r.Chance(2, 3) {
@@ -559,9 +607,9 @@ func c17MqGen(r *vfRand, adv bool) c17MqIn {
 			nslot++
 		case len(connected) > 0:
 			s := pick(&connected)
-			in.Ops = append(in.Ops, []int64{2, int64(s), int64(r.Intn(2))})
+			in.Ops = append(in.Ops, []int64{2, int64(s), int64(r.PickInt(0, 1, 1))})
 		default:
-			in.Ops = append(in.Ops, []int64{0, int64(r.Intn(ncid))})
+			in.Ops = append(in.Ops, start(r.Intn(ncid)))
 			parked = append(parked, nslot)
 			nslot++
 		}
@@ -576,6 +624,8 @@ type c17MqStormIn struct {
 	Workers int  `json:"workers"`
 	Iters   int  `json:"iters"`
 	Unique  bool `json:"unique"` // every worker uses its own client id (no takeovers)
+	Pub     int  `json:"pub"`    // Publish rule (see c17MqIn); clients then carry a will
+	Disc    int  `json:"disc"`   // Disconnect rule (see c17MqIn)
 	Seed    int  `json:"seed"`
 }
 
@@ -593,7 +643,7 @@ type c17MqStormObs struct {
 func c17MqStormExec(in c17MqStormIn) (obs c17MqStormObs) {
 	h := &c17MqHandler{park: 0, entered: make(chan c17MqPark, 1), discIn: make(chan c17MqPark, 1)}
 	h.discArm.Store("")
-	b, addr := c17MqBroker(in.Cap, h)
+	b, addr := c17MqBroker(in.Cap, h, in.Pub, in.Disc)
 	if b == nil {
 		obs.Other = -1
 		return
@@ -646,7 +696,11 @@ func c17MqStormExec(in c17MqStormIn) (obs c17MqStormObs) {
 					atomic.AddInt64(&oth, 1)
 					continue
 				}
-				c17MqConnectPacket(cid).Write(conn)
+				cp := c17MqConnectPacket(cid)
+				if in.Pub != 0 {
+					cp.WillFlag, cp.WillTopic, cp.WillMessage, cp.WillQos = true, "c17/will", []byte("gone"), 0
+				}
+				cp.Write(conn)
 				conn.SetReadDeadline(time.Now().Add(c17MqWait))
 				pk, err := packets.ReadPacket(conn)
 				ca, ok := pk.(*packets.ConnackPacket)
@@ -780,7 +834,8 @@ func TestVerifC17Mqtt(t *testing.T) {
 		for i := 0; i < 12; i++ {
 			r := root.Fork(100000 + i)
 			in := c17MqStormIn{Cap: r.PickInt(1, 2, 3, 5), Workers: r.PickInt(4, 8, 12), Iters: r.PickInt(20, 40),
-				Unique: i%2 == 0, Seed: int(r.Intn(1 << 30))}
+				Unique: i%2 == 0, Seed: int(r.Intn(1 << 30)),
+				Pub: r.PickInt(0, 1, 2, 3, 4), Disc: r.PickInt(0, 1, 2)}
 			out.Emit(vfCase{ID: fmt.Sprintf("%s-mqstorm-%d", src, i), Src: src, Grp: "mqstorm", In: in, Obs: c17MqStormExec(in)})
 		}
 	}
